@@ -13,6 +13,9 @@ pub fn units(tier: &str, _seed: u64) -> Vec<String> {
         "1/U:ACS:EAMBIENTE;2/U:CAL:EAMBIENTE;1/P:EAMBIENTE",
         // production declared for a system without use, and legacy lines without id
         "U:CAL:EAMBIENTE;3/P:EAMBIENTE",
+        // production declared for system 0 (explicit / omitted id), use in another system without own production
+        "0/P:EAMBIENTE;3/U:CAL:EAMBIENTE",
+        "P:TERMOSOLAR;-1/U:ACS:TERMOSOLAR",
         // two uses of one system, two production lines of the same system
         "2/U:CAL:EAMBIENTE;2/U:ACS:EAMBIENTE;2/P:EAMBIENTE;2/P:EAMBIENTE",
         // solar thermal next to ambient heat, negative id
